@@ -541,6 +541,38 @@ func propC18(r *Run) {
 		r.notes = append(r.notes, fmt.Sprintf("exhaustive: all sequences over %q up to length %d x all queries over %q up to length %d (search and match)",
 			sc.alpha, sc.n, sc.qalpha, sc.qn))
 	}
+	// SEARCH with bytes that are not ASCII (finding F41, repaired in /repo 8bd6af1: the lowered copy
+	// made by bytes.ToLower had another length, occurrences behind such a byte were reported too far
+	// right).  Match is NOT sent these: regexp reads its input as UTF-8 (known finding K18B).
+	{
+		hi := []byte{'a', 'C', 0x80, 0xC3, 0xA9, 0xFF}
+		n := 4
+		if thorough {
+			n = 5
+		}
+		for _, sq := range c18Strings(hi, 0, n) {
+			for _, q := range c18Strings([]byte{'c', 0xC3, 0xA9, 0xFF}, 1, 2) {
+				c18Search(r, sq, q, "small/non-ascii")
+			}
+		}
+		for t := 0; t < 600; t++ {
+			sq := make([]byte, r.rng.rangeInt(5, 60))
+			for i := range sq {
+				switch r.rng.intn(5) {
+				case 0:
+					sq[i] = byte(128 + r.rng.intn(128))
+				case 1:
+					sq[i] = []byte("\xc4\xb0\xe2\x84\xaa\xc3\x89")[r.rng.intn(7)] // pieces of İ, K (Kelvin), É
+				default:
+					sq[i] = "acgtACGT"[r.rng.intn(8)]
+				}
+			}
+			a := r.rng.intn(len(sq))
+			b := a + 1 + r.rng.intn(minInt(3, len(sq)-a))
+			c18Search(r, sq, append([]byte(nil), sq[a:b]...), "random/non-ascii")
+		}
+		r.notes = append(r.notes, "search (not match) also over the bytes a C 0x80 0xC3 0xA9 0xFF exhaustively up to length 4 and on 600 random sequences with bytes >= 0x80 and planted hits")
+	}
 	r.notes = append(r.notes, "exhaustive: complement/transcribe on all 256 byte values; match on all 32x32 letter pairs and on every ASCII query byte x ASCII sequence byte; spec.baseset on all 256 bytes")
 
 	// regexp metacharacters and other non-alphabet bytes inside longer queries
